@@ -977,28 +977,50 @@ def rule_a6_optdef(ctx):
     """A6.optdef: wherever the position logic treats a component as "may be absent", OPTIONAL and DEFAULT are
     treated alike (both may be omitted from an encoding)."""
     sites = []
+
+    def collect(f, by_position=False):
+        """Maximal boolean expressions (wherever they stand: a test, a named condition, a returned value) that read
+        `.isOptional` / `.isDefaulted`; by_position: only of a component looked up by its position (`namedTypes[idx]`
+        or a local bound to such a subscript), which is what the position logic of the decoders does."""
+        got = []
+        for n in walk_own(f.node):
+            if isinstance(n, ast.Attribute) and n.attr in ('isOptional', 'isDefaulted') and isinstance(n.ctx, ast.Load):
+                if by_position:
+                    b = n.value
+                    if isinstance(b, ast.Name):
+                        from sa.cfg import reaching_defs
+                        cfg = ctx.cfg(f)
+                        key = ('rd', f.qualname)
+                        if key not in ctx.cache:
+                            ctx.cache[key] = reaching_defs(cfg, f.params())
+                        st_ = n
+                        while not (isinstance(st_, ast.stmt) and st_ in cfg.node_of):
+                            st_ = st_.parent
+                        defs = ctx.cache[key][cfg.node_of[st_]].get(b.id, set())
+                        if not any(isinstance(getattr(d, 'ast', None), ast.Assign) and isinstance(d.ast.value, ast.Subscript) for d in defs):
+                            continue
+                    elif not isinstance(b, ast.Subscript):
+                        continue
+                top = n
+                while isinstance(getattr(top, 'parent', None), (ast.BoolOp, ast.UnaryOp)):
+                    top = top.parent
+                if not any(top is x for x in got):
+                    got.append(top)
+        return got
+    per = {}
     for q in ('codec.ber.decoder.ConstructedPayloadDecoderBase.valueDecoder', 'codec.ber.decoder.ConstructedPayloadDecoderBase.indefLenValueDecoder'):
         f = ctx.func(q)
-        for n in walk_own(f.node):
-            if isinstance(n, (ast.If,)) and ('namedTypes[idx].isOptional' in norm(n.test) or 'namedTypes[idx].isDefaulted' in norm(n.test)):
-                sites.append((f, n.test))
+        per[q] = collect(f, by_position=True)
+        sites.extend((f, e) for e in per[q])
     nt = ctx.cls('type.namedtype.NamedTypes')
     for name, defs in nt.attrs.items():
         for d in defs:
             if d[0] != 'func':
                 continue
-            f = d[1]
-            for n in walk_own(f.node):
-                if isinstance(n, (ast.BoolOp,)) and ('.isOptional' in norm(n) or '.isDefaulted' in norm(n)) and \
-                        not isinstance(getattr(n, 'parent', None), ast.BoolOp):
-                    sites.append((f, n))
-                elif isinstance(n, ast.If) and not isinstance(n.test, ast.BoolOp) and ('.isOptional' in norm(n.test) or '.isDefaulted' in norm(n.test)):
-                    sites.append((f, n.test))
+            sites.extend((d[1], e) for e in collect(d[1]))
     f = ctx.func('type.univ.SequenceAndSetBase.isValue')
-    for n in walk_own(f.node):
-        if isinstance(n, ast.If) and ('.isOptional' in norm(n.test) or '.isDefaulted' in norm(n.test)):
-            sites.append((f, n.test))
-    if len(sites) < 8:
+    sites.extend((f, e) for e in collect(f))
+    if len(sites) < 6 or not all(per.values()):
         raise AnalysisError('A6.optdef found only %d may-be-absent tests' % len(sites))
     seen = set()
     for f, e in sites:
